@@ -164,6 +164,153 @@ pub struct CampaignOut {
     pub inconclusive: Vec<String>,
 }
 
+// --- hang watch -------------------------------------------------------------------------------
+// Every campaign / enumeration shard registers a slot: it bumps `seq` and stores a clone of the case before
+// each check.  One watchdog thread per process samples the shards' *thread CPU clocks*: a shard that burns
+// more than HANG_CPU_S seconds of CPU inside one case is hanging (the checks run 10^4..10^6 cases per second;
+// CPU time, unlike wall time, does not depend on the load of the machine).  "No input makes any operation
+// hang" is C06's property: there the case becomes a VIOLATION with a replay file; for the other
+// properties the run ends at once as inconclusive (exit 2) and names the case.
+pub struct WatchSlot {
+    clock: libc::clockid_t,
+    pub seq: std::sync::atomic::AtomicU64,
+    campaign: String,
+    describe: Box<dyn Fn() -> Value + Send + Sync>,
+    /// multiple of the CPU limit this slot is allowed (the main thread between two campaigns merges results)
+    factor: f64,
+}
+static MAIN_SLOT: std::sync::Mutex<Option<std::sync::Arc<WatchSlot>>> = std::sync::Mutex::new(None);
+static WATCH: std::sync::Mutex<Vec<std::sync::Arc<WatchSlot>>> = std::sync::Mutex::new(Vec::new());
+static WATCH_PROP: std::sync::Mutex<String> = std::sync::Mutex::new(String::new());
+static WATCH_ON: std::sync::Once = std::sync::Once::new();
+
+pub fn hang_cpu_limit() -> f64 {
+    std::env::var("VERIF_HANG_CPU_S").ok().and_then(|s| s.parse().ok()).unwrap_or(60.0)
+}
+
+/// call once per process before the campaigns: names the property the run belongs to
+pub fn watch_property(id: &str) {
+    *WATCH_PROP.lock().unwrap() = id.to_string();
+}
+
+pub struct WatchGuard(pub std::sync::Arc<WatchSlot>);
+impl Drop for WatchGuard {
+    fn drop(&mut self) {
+        if let Ok(mut w) = WATCH.lock() {
+            w.retain(|s| !std::sync::Arc::ptr_eq(s, &self.0));
+        }
+    }
+}
+
+/// register the calling thread; `describe` must return the case it is executing (as replayable JSON)
+pub fn watch_register(campaign: &str, describe: Box<dyn Fn() -> Value + Send + Sync>) -> WatchGuard {
+    watch_register_with(campaign, describe, 1.0)
+}
+
+/// the main thread: everything it does between two campaigns (known-finding probes, golden self-tests,
+/// merging of results) counts as one "case"; campaign() / enumerate() bump its counter on entry and exit
+pub fn watch_main() {
+    let g = watch_register_with("main", Box::new(|| json!("main thread outside the campaigns: known-finding probes, oracle self-test or merging of results")), 5.0);
+    g.0.seq.fetch_add(1, std::sync::atomic::Ordering::Relaxed);
+    *MAIN_SLOT.lock().unwrap() = Some(g.0.clone());
+    std::mem::forget(g);
+}
+
+fn bump_main() {
+    if let Ok(m) = MAIN_SLOT.lock() {
+        if let Some(s) = m.as_ref() {
+            s.seq.fetch_add(1, std::sync::atomic::Ordering::Relaxed);
+        }
+    }
+}
+
+pub fn watch_register_with(campaign: &str, describe: Box<dyn Fn() -> Value + Send + Sync>, factor: f64) -> WatchGuard {
+    let mut clock: libc::clockid_t = 0;
+    unsafe {
+        libc::pthread_getcpuclockid(libc::pthread_self(), &mut clock);
+    }
+    let slot = std::sync::Arc::new(WatchSlot { clock, seq: std::sync::atomic::AtomicU64::new(0), campaign: campaign.to_string(), describe, factor });
+    WATCH.lock().unwrap().push(slot.clone());
+    WATCH_ON.call_once(|| {
+        std::thread::spawn(watchdog_loop);
+    });
+    WatchGuard(slot)
+}
+
+fn clock_secs(c: libc::clockid_t) -> Option<f64> {
+    let mut ts = libc::timespec { tv_sec: 0, tv_nsec: 0 };
+    let r = unsafe { libc::clock_gettime(c, &mut ts) };
+    if r == 0 {
+        Some(ts.tv_sec as f64 + ts.tv_nsec as f64 * 1e-9)
+    } else {
+        None
+    }
+}
+
+fn watchdog_loop() {
+    use std::sync::atomic::Ordering::Relaxed;
+    // per slot (by pointer): (seq seen, cpu when that seq was first seen)
+    let mut seen: std::collections::HashMap<usize, (u64, f64)> = std::collections::HashMap::new();
+    let limit = hang_cpu_limit();
+    loop {
+        std::thread::sleep(std::time::Duration::from_millis(500));
+        let slots: Vec<std::sync::Arc<WatchSlot>> = WATCH.lock().map(|w| w.clone()).unwrap_or_default();
+        let mut live = HashSet::new();
+        for s in &slots {
+            let key = std::sync::Arc::as_ptr(s) as usize;
+            live.insert(key);
+            let seq = s.seq.load(Relaxed);
+            let cpu = match clock_secs(s.clock) {
+                Some(c) => c,
+                None => continue,
+            };
+            match seen.get(&key) {
+                Some((q, c0)) if *q == seq && seq > 0 => {
+                    if cpu - c0 > limit * s.factor {
+                        // make sure it is still the same case, then report
+                        let case = (s.describe)();
+                        if s.seq.load(Relaxed) == seq {
+                            hang_exit(&s.campaign, case, cpu - c0);
+                        }
+                    }
+                }
+                _ => {
+                    seen.insert(key, (seq, cpu));
+                }
+            }
+        }
+        seen.retain(|k, _| live.contains(k));
+    }
+}
+
+fn hang_exit(campaign: &str, case: Value, cpu: f64) -> ! {
+    // a regression file that hangs: report the campaign and case it holds
+    let (campaign, case) = match (campaign, case.get("campaign").and_then(|c| c.as_str()), case.get("case")) {
+        ("regress", Some(c), Some(k)) => (c.to_string(), k.clone()),
+        _ => (campaign.to_string(), case),
+    };
+    let campaign = campaign.as_str();
+    let prop = WATCH_PROP.lock().map(|p| p.clone()).unwrap_or_default();
+    let dir = format!("{}/work/replays", crate::findings::verif_dir());
+    let _ = std::fs::create_dir_all(&dir);
+    let path = format!("{}/{}-{}-hang.json", dir, prop, campaign);
+    let msg = format!("one case of campaign {:?} has used {:.0} s of CPU time and has not returned (limit {} s; the checks run thousands of cases per second)", campaign, cpu, hang_cpu_limit());
+    let body = json!({"property": prop, "campaign": campaign, "check": "hang", "message": msg, "case": case});
+    let _ = std::fs::write(&path, serde_json::to_string_pretty(&body).unwrap_or_default());
+    let short: String = serde_json::to_string(&case).unwrap_or_default().chars().take(300).collect();
+    if prop == "C06" {
+        eprintln!("[C06] {} / hang: {}: {}", campaign, msg, short);
+        println!("VIOLATION property=C06 replay={}", path);
+        let ev = json!({"property_id": "C06", "tier": "quick", "seed": 0, "level": "exploration", "wall_s": cpu, "violations": 1,
+            "coverage": {"evaluations": 1, "distinct_nontrivial": 1, "rule": "the run was ended by the hang watch: one case exceeded the CPU-time limit", "samples": [case], "explanation": msg}});
+        let _ = std::fs::create_dir_all(format!("{}/evidence", crate::findings::verif_dir()));
+        let _ = std::fs::write(format!("{}/evidence/C06.json", crate::findings::verif_dir()), serde_json::to_string_pretty(&ev).unwrap_or_default());
+        std::process::exit(1);
+    }
+    eprintln!("[{}] inconclusive: {}: {} - a hang of the code under test is C06's property (run ./run.sh C06 quick); case saved in {}", prop, msg, short, path);
+    std::process::exit(2);
+}
+
 /// Special message prefix: a check can signal "infrastructure, not violation".
 pub const INCONCLUSIVE: &str = "INCONCLUSIVE:";
 
@@ -179,11 +326,12 @@ fn derive_seed(seed: u64, prop: &str, name: &str, shard: usize) -> u64 {
 /// is shrunk by proptest and re-executed once (stats frozen) to obtain the structured failure.
 pub fn campaign<C, S, MK, F>(cfg: &RunCfg, prop: &str, name: &str, total: u64, mk: MK, check: F) -> CampaignOut
 where
-    C: std::fmt::Debug + Clone + Serialize + serde::de::DeserializeOwned + Send,
+    C: std::fmt::Debug + Clone + Serialize + serde::de::DeserializeOwned + Send + 'static,
     S: Strategy<Value = C>,
     MK: Fn() -> S + Sync,
     F: Fn(&C, &mut Stats) -> Result<(), Failure> + Sync,
 {
+    bump_main();
     let threads = cfg.threads.max(1);
     let per = ((total + threads as u64 - 1) / threads as u64).max(1);
     let mut out = CampaignOut::default();
@@ -206,7 +354,14 @@ where
                 let mut runner = TestRunner::new(config);
                 let stats = RefCell::new(Stats::default());
                 let strat = mk();
+                let cur: std::sync::Arc<std::sync::Mutex<Option<C>>> = std::sync::Arc::new(std::sync::Mutex::new(None));
+                let cur2 = cur.clone();
+                let wg = watch_register(name, Box::new(move || cur2.lock().ok().and_then(|g| g.as_ref().map(|c| serde_json::to_value(c).unwrap_or(Value::Null))).unwrap_or(Value::Null)));
                 let res = runner.run(&strat, |c| {
+                    if let Ok(mut g) = cur.lock() {
+                        *g = Some(c.clone());
+                    }
+                    wg.0.seq.fetch_add(1, std::sync::atomic::Ordering::Relaxed);
                     let mut st = stats.borrow_mut();
                     st.case();
                     let r = catch_unwind(AssertUnwindSafe(|| check(&c, &mut st)));
@@ -227,6 +382,10 @@ where
                     Err(TestError::Fail(reason, shrunk)) => {
                         let mut st = Stats::default();
                         st.frozen = true;
+                        if let Ok(mut g) = cur.lock() {
+                            *g = Some(shrunk.clone());
+                        }
+                        wg.0.seq.fetch_add(1, std::sync::atomic::Ordering::Relaxed);
                         let r = catch_unwind(AssertUnwindSafe(|| check(&shrunk, &mut st)));
                         let mut f = match r {
                             Ok(Err(f)) => f,
@@ -243,6 +402,10 @@ where
                             let want = f.check.clone();
                             let run_one = |v: &Value| -> Option<Failure> {
                                 let c: C = serde_json::from_value(v.clone()).ok()?;
+                                if let Ok(mut g) = cur.lock() {
+                                    *g = Some(c.clone());
+                                }
+                                wg.0.seq.fetch_add(1, std::sync::atomic::Ordering::Relaxed);
                                 let mut st = Stats::default();
                                 st.frozen = true;
                                 match catch_unwind(AssertUnwindSafe(|| check(&c, &mut st))) {
@@ -275,6 +438,7 @@ where
         }
         hs.into_iter().map(|h| h.join().expect("shard thread")).collect()
     });
+    bump_main();
     for (st, f) in results {
         out.stats.merge(st);
         if let Some(f) = f {
@@ -291,11 +455,12 @@ where
 /// Run a deterministic enumeration, sharded: `items(shard, nshards)` yields this shard's part.
 pub fn enumerate<C, I, MK, F>(cfg: &RunCfg, name: &str, mk: MK, check: F) -> CampaignOut
 where
-    C: Serialize,
+    C: Serialize + Clone + Send + 'static,
     I: Iterator<Item = C>,
     MK: Fn(usize, usize) -> I + Sync,
     F: Fn(&C, &mut Stats) -> Result<(), Failure> + Sync,
 {
+    bump_main();
     let threads = cfg.threads.max(1);
     let mut out = CampaignOut::default();
     let results: Vec<(Stats, Option<Failure>)> = std::thread::scope(|sc| {
@@ -306,7 +471,14 @@ where
             hs.push(sc.spawn(move || {
                 let mut st = Stats::default();
                 let mut failure = None;
+                let cur: std::sync::Arc<std::sync::Mutex<Option<C>>> = std::sync::Arc::new(std::sync::Mutex::new(None));
+                let cur2 = cur.clone();
+                let wg = watch_register(name, Box::new(move || cur2.lock().ok().and_then(|g| g.as_ref().map(|c| serde_json::to_value(c).unwrap_or(Value::Null))).unwrap_or(Value::Null)));
                 for c in mk(shard, threads) {
+                    if let Ok(mut g) = cur.lock() {
+                        *g = Some(c.clone());
+                    }
+                    wg.0.seq.fetch_add(1, std::sync::atomic::Ordering::Relaxed);
                     st.case();
                     let r = catch_unwind(AssertUnwindSafe(|| check(&c, &mut st)));
                     let f = match r {
@@ -325,6 +497,7 @@ where
         }
         hs.into_iter().map(|h| h.join().expect("shard thread")).collect()
     });
+    bump_main();
     for (st, f) in results {
         out.stats.merge(st);
         if let Some(f) = f {
